@@ -479,11 +479,55 @@ type C12Stored struct {
 	Pads   []int  `json:"pads"`   // ignored header bits per block
 	Limit  int64  `json:"limit"`
 	Family string `json:"family"`
+	Where  string `json:"where,omitempty"` // where the padding comment goes: "" = after the root, "inside" = first child of the root, "before" = in front of the root
+}
+
+// padAt is padTo with the padding comment at a chosen place (a comment inside the root is not part of the
+// signed bytes: the base messages use a canonicaliser without comments).
+func padAt(xml []byte, n int64, where string) []byte {
+	need := int(n) - len(xml) - 7
+	if need < 0 {
+		return nil
+	}
+	at := len(xml)
+	switch where {
+	case "inside", "before":
+		i := 0
+		for i < len(xml) { // the root start tag: first '<' followed by a name character
+			if xml[i] == '<' && i+1 < len(xml) && xml[i+1] != '?' && xml[i+1] != '!' {
+				break
+			}
+			i++
+		}
+		at = i
+		if where == "inside" {
+			q := byte(0)
+			for ; i < len(xml); i++ {
+				if q != 0 {
+					if xml[i] == q {
+						q = 0
+					}
+				} else if xml[i] == '"' || xml[i] == '\'' {
+					q = xml[i]
+				} else if xml[i] == '>' {
+					break
+				}
+			}
+			at = i + 1
+		}
+	}
+	out := make([]byte, 0, n)
+	out = append(out, xml[:at]...)
+	out = append(out, "<!--"...)
+	out = append(out, bytes.Repeat([]byte{'p'}, need)...)
+	out = append(out, "-->"...)
+	return append(out, xml[at:]...)
 }
 
 func genC12Stored(t *rapid.T) C12Stored {
 	c := C12Stored{Kind: rapid.SampledFrom([]string{"response", "LogoutRequest", "LogoutResponse"}).Draw(t, "kind"), Limit: rapid.SampledFrom([]int64{0, 0, 128 * 1024}).Draw(t, "limit")}
 	c.Family = rapid.SampledFrom([]string{"random", "random", "xmlish-header"}).Draw(t, "family")
+	c.Where = rapid.SampledFrom([]string{"", "inside", "inside", "before"}).Draw(t, "padWhere")
 	c.Size = rapid.IntRange(len(c12BaseXML(c.Kind))+7, 70000).Draw(t, "size")
 	nb := rapid.IntRange(1, 6).Draw(t, "nBlocks")
 	for i := 0; i < nb; i++ {
@@ -506,7 +550,8 @@ func genC12Stored(t *rapid.T) C12Stored {
 
 func checkC12Stored(c C12Stored) h.Outcome {
 	o := h.Outcome{NonTrivial: true, Classes: []string{"stored:" + c.Family, "kind:" + c.Kind, fmt.Sprintf("blocks:%d", len(c.Blocks))}}
-	raw := padTo(c12BaseXML(c.Kind), int64(c.Size))
+	o.Classes = append(o.Classes, "pad:"+c.Where)
+	raw := padAt(c12BaseXML(c.Kind), int64(c.Size), c.Where)
 	if raw == nil {
 		raw = c12BaseXML(c.Kind)
 	}
@@ -544,7 +589,7 @@ func TestC12_GridStored(t *testing.T) {
 	var cases []C12Stored
 	for pad := 4; pad <= 15; pad++ {
 		for _, l := range []int{0x4020, 0x4a2f, 0x5533, 0x7f3f, 0x6021} {
-			cases = append(cases, C12Stored{Kind: []string{"response", "LogoutResponse", "LogoutRequest"}[pad%3], Size: 40000, Blocks: []int{l, 900}, Pads: []int{pad, 0, 3}, Family: "xmlish-header"})
+			cases = append(cases, C12Stored{Kind: []string{"response", "LogoutResponse", "LogoutRequest"}[pad%3], Size: 40000, Blocks: []int{l, 900}, Pads: []int{pad, 0, 3}, Family: "xmlish-header", Where: []string{"inside", "", "before", "inside"}[(pad+l)%4]})
 		}
 	}
 	h.RunCases(t, "C12.stored", cases, checkC12Stored)
